@@ -196,8 +196,16 @@ del_remaining_edges_for_vertices([V0-Edges|G], V1, [V0-NEdges|NG]) :-
 
 split_on_del_vertices(<, V, Edges, Vs, Vs, V1, [V-NEdges|NG], NG) :-
     ord_subtract(Edges, V1, NEdges).
-split_on_del_vertices(>, V, Edges, [_|Vs], Vs, V1, [V-NEdges|NG], NG) :-
-    ord_subtract(Edges, V1, NEdges).
+split_on_del_vertices(>, V, Edges, [_|Vs], NVs, V1, NG, NGr) :-
+    % the vertex to delete is not in the graph: V has still to be
+    % compared with the remaining vertices to delete
+    (   Vs = [V0|_] ->
+        compare(Res, V, V0),
+        split_on_del_vertices(Res, V, Edges, Vs, NVs, V1, NG, NGr)
+    ;   NVs = [],
+        ord_subtract(Edges, V1, NEdges),
+        NG = [V-NEdges|NGr]
+    ).
 split_on_del_vertices(=, _, _, [_|Vs], Vs, _, NG, NG).
 
 %% add_edges(+Graph, +Edges, -NewGraph)
